@@ -12,11 +12,11 @@ _FIELDS = ('isotope_mods', 'static_mods', 'labile_mods', 'unknown_mods', 'nterm_
 C[PA + '__len__'] = dict(params=dict(self='Annotation'), returns='int', pure=True, ensures=[('residues', 'result == len(self._sequence)')])
 C.update({k: v for k, v in accessor_contracts().items() if k.endswith('.sequence')})
 C[PA + 'serialize_start'] = dict(params=dict(self='Annotation', include_plus='bool'), returns='str', pure=True, trusted=True,
-                                 bounded_by='serializer pieces: round trip checked by bounded/C01.py', ensures=[])
+                                 bounded_by='serializer pieces: layout proved in contracts/serial.py (C01); round trip bounded/C01.py', ensures=[])
 C[PA + 'serialize_end'] = dict(params=dict(self='Annotation', include_plus='bool'), returns='str', pure=True, trusted=True,
-                               bounded_by='serializer pieces: round trip checked by bounded/C01.py', ensures=[])
+                               bounded_by='serializer pieces: layout proved in contracts/serial.py (C01); round trip bounded/C01.py', ensures=[])
 C[PA + 'serialize'] = dict(params=dict(self='Annotation', include_plus='bool'), returns='str', pure=True, trusted=True,
-                           bounded_by='single-chain serializer: round trip checked by bounded/C01.py', ensures=[])
+                           bounded_by='single-chain serializer: layout proved in contracts/serial.py (C01); parser-inverts-writer round trip bounded/C01.py', ensures=[])
 C[PA + 'split'] = dict(params=dict(self='Annotation'), returns='List[Annotation]', pure=True, trusted=True,
                        bounded_by='proved against its own contract in contracts/pieces.py (piece i is slice(i, i+1) of the peptide without labile modifications, which go to the first piece)', ensures=[])
 C['peptacular.proforma.proforma_parser:parse'] = dict(params=dict(sequence='str'), returns='Annotation', pure=True, trusted=True,
